@@ -157,7 +157,8 @@ func (i *Interpreter) ProcessPrefixExpression(exp *ast.PrefixExpression, opt *Ex
 			)
 		}
 	case "-":
-		switch t := v.(type) {
+		// Negate a copy: the operand may be the stored value of a variable which must not change
+		switch t := v.Copy().(type) {
 		case *value.Integer:
 			t.Value = -t.Value
 			return t, nil
